@@ -18,8 +18,8 @@ PROP = dict(
     theorems=['Fit.C01.C01_wire_records', 'Fit.C01.C01_wire_sequence', 'Fit.C01.C01_wire_chain',
               'Fit.C01.C01_ts_nonmonotone_roundtrip', 'Fit.C01.C01_ts_wild_roundtrip', 'Fit.C01.C01_fix_conservative',
               # end to end (FitProps/C01E2E.lean): values, the real validator, the decoder-API model
-              'Fit.C01.C01_e2e_actual', 'Fit.C01.C01_e2e_roundtrip_partial', 'Fit.C01.C01_e2e_full_fails_arr',
-              'Fit.C01.C01_e2e_full_fails_zero', 'Fit.C01.C01_e2e_full_fails_fffd',
+              'Fit.C01.C01_e2e_actual', 'Fit.C01.C01_e2e_roundtrip_partial', 'Fit.C01.C01_e2e_reencode_partial', 'Fit.C01.C01_e2e_full_fails_arr',
+              'Fit.C01.C01_e2e_full_fails_zero', 'Fit.C01.C01_e2e_full_fails_fffd', 'Fit.C01.C01_e2e_reencode_full_fails_boolarr',
               'Fit.C01.C01_e2e_value_independent_of_byte_order'],
     families=[dict(name='encw'), dict(name='decw'), dict(name='rtw', prop=True), dict(name='rte2e', prop=True)],
     trusted_base=STD_TRUST + [
